@@ -200,10 +200,24 @@ def catalogue_json(cat):
 FILTER_ID = {'lzma2': 0x21, 'delta': 3, 'x86': 4, 'powerpc': 5, 'ia64': 6, 'arm': 7, 'armthumb': 8, 'sparc': 9,
              'arm64': 10, 'riscv': 11, 'unknown': 0x22, 'reserved': (1 << 62) + 5}
 BCJ_ALIGN = {'x86': 1, 'powerpc': 4, 'ia64': 16, 'arm': 4, 'armthumb': 2, 'sparc': 4, 'arm64': 4, 'riscv': 2}
-def bad_vli(v):
-    """a malformed (non-minimal) VLI that is one byte longer than the minimal encoding of v"""
-    n = len(gvli.encode(v))
-    return bytes([0x81] + [0x80] * (n - 1) + [0x00])
+BIG_STANDIN = 134217728          # XzFile.tla BigStandIn
+BIG_EXP = {'p31': 31, 'p32': 32, 'p33': 33, 'p62': 62}
+
+def real_value(v, tag):
+    """the integer a model value stands for: BIG tags mean true value + 2^e (XzFile.tla)"""
+    if not tag:
+        return v
+    return v - BIG_STANDIN + (1 << BIG_EXP[tag])
+
+def enc_vli(v, cls="ok", variant=0):
+    """VLI encoding of v: minimal | "nonmin" (SAME value, continuation bit added, 0x00 appended) | "over9" (nine continuation bytes)"""
+    if cls == "over9":
+        low = [0x80, 0xFF, 0x81, 0xA5][variant % 4]
+        return bytes([low] + [[0x80, 0xFF, 0x80, 0x81][variant % 4]] * 8)
+    e = gvli.encode(v)
+    if cls == "nonmin":
+        return e[:-1] + bytes([e[-1] | 0x80, 0x00])
+    return e
 
 def filter_props(f, k, rng_val):
     fid, plen, pok = f['id'], f['plen'], f['pok']
@@ -274,7 +288,12 @@ def concretise_file(af, cat, rng=None, variant=0):
             e = bycat[b['did']]
             flt = []
             for k, f in enumerate(b['filters']):
-                flt.append(dict(id=FILTER_ID[f['id']], props=filter_props(f, k, rng)))
+                fd = dict(id=FILTER_ID[f['id']], props=filter_props(f, k, rng))
+                if f.get('idv', 'ok') != 'ok':
+                    fd['id_bytes'] = enc_vli(fd['id'], f['idv'], variant)
+                if f.get('psv', 'ok') != 'ok':
+                    fd['props_size_bytes'] = enc_vli(len(fd['props']), f['psv'], variant)
+                flt.append(fd)
             # the catalogue data is the LZMA2 encoding of e['out'] *as seen by LZMA2*; with non-last filters the Block's
             # meaning is the DEcoding of that through the filters (decoding direction is total for delta/BCJ)
             raw = e['out']
@@ -302,14 +321,14 @@ def concretise_file(af, cat, rng=None, variant=0):
             blk = dict(filters=flt, data=data_bytes, uncompressed=plain)
             if b['cs']['p']:
                 if b['cs']['vli']:
-                    blk['compressed_size'] = b['cs']['v']
+                    blk['compressed_size'] = real_value(b['cs']['v'], b['cs'].get('big', ''))
                 else:
-                    blk['compressed_size_bytes'] = bad_vli(b['cs']['v'])
+                    blk['compressed_size_bytes'] = enc_vli(b['cs']['v'], b['cs'].get('vc', 'nonmin'), variant)
             if b['us']['p']:
                 if b['us']['vli']:
-                    blk['uncompressed_size'] = b['us']['v']
+                    blk['uncompressed_size'] = real_value(b['us']['v'], b['us'].get('big', ''))
                 else:
-                    blk['uncompressed_size_bytes'] = bad_vli(b['us']['v'])
+                    blk['uncompressed_size_bytes'] = enc_vli(b['us']['v'], b['us'].get('vc', 'nonmin'), variant)
             blk['header_padding'] = b['hpad'] if (b['hpadz'] or b['hpad'] == 0) else (b"\x00" * (b['hpad'] - 1) + b"\x01")
             hdr = gxz.build_block_header(dict(blk, header_size=None))
             real = len(hdr)
@@ -344,19 +363,26 @@ def concretise_file(af, cat, rng=None, variant=0):
             h['crc32'] = gcrc.crc32(fl) ^ (1 << rng.randrange(32))
         if h:
             st['header'] = h
-        ix = dict(count=s['icount'], records=[(r['u'], r['n']) for r in s['irecs']])
-        if not s['ivli']:
-            if s['irecs']:
-                ix['record_bytes'] = [(None, bad_vli(s['irecs'][0]['n']))] + [None] * (len(s['irecs']) - 1)
-            else:
-                ix['count_bytes'] = b"\x80\x00"
-        if not s['ipadz']:
-            body = 1 + len(gvli.encode(s['icount'])) + sum(len(gvli.encode(r['u'])) + len(gvli.encode(r['n'])) for r in s['irecs'])
-            padn = (-body) % 4
-            if padn:
-                ix['padding'] = bytes(padn - 1) + b"\x01"
+        # the VLIs of the Index, position 1 = Number of Records, 2k / 2k+1 = sizes of Record k; one of them may be malformed
+        def ivcls(pos):
+            return s.get('ivcls', 'nonmin') if (not s['ivli'] and s.get('ivpos', 1) == pos) else "ok"
+        cnt = real_value(s['icount'], s.get('icb', ''))
+        recs = [(real_value(r['u'], r.get('ub', '')), real_value(r['n'], r.get('nb', ''))) for r in s['irecs']]
+        ix = dict(count=cnt, records=recs)
+        ix['count_bytes'] = enc_vli(cnt, ivcls(1), variant)
+        ix['record_bytes'] = [(enc_vli(u, ivcls(2 * k + 2), variant), enc_vli(n_, ivcls(2 * k + 3), variant)) for k, (u, n_) in enumerate(recs)]
+        # Index Padding as the decoders compute it: from the minimal encodings of the values (XzFile.tla IndexPad)
+        body = 1 + len(gvli.encode(cnt)) + sum(len(gvli.encode(u)) + len(gvli.encode(n_)) for u, n_ in recs)
+        padn = (-body) % 4
+        ix['padding'] = bytes(padn)
+        if not s['ipadz'] and padn:
+            ix['padding'] = bytes(padn - 1) + b"\x01"
         st['index'] = ix
-        ft = dict(backward_size=(s['fbs'] // 4 - 1) & 0xFFFFFFFF)
+        if s.get('fbb', ''):
+            # stored Backward Size = true stored value + k * 2^30 (the real size exceeds the true one by k * 2^32)
+            ft = dict(backward_size=(((s['fbs'] - BIG_STANDIN) // 4 - 1) + (int(s['fbb'][1]) << 30)) & 0xFFFFFFFF)
+        else:
+            ft = dict(backward_size=(s['fbs'] // 4 - 1) & 0xFFFFFFFF)
         ffl = bytes([0, s['fcheck']])
         if not s['fvers']:
             ffl = rng.choice([bytes([2, s['fcheck']]), bytes([0, s['fcheck'] | 0x80])])
@@ -388,7 +414,7 @@ def decode_stream(data, flags=lz.CONCATENATED, memlimit=lz.UINT64_MAX, slices=No
     """lzma_stream_decoder (or _mt with `mt` threads) through lzma_code: returns (retname, out, tells, total_in)."""
     c = lz.Coder()
     if mt:
-        m = lz.Mt(); m.flags = flags; m.threads = mt; m.memlimit_threading = memlimit; m.memlimit_stop = memlimit; m.timeout = 0
+        m = lz.Mt(); m.flags = flags; m.threads = mt; m.memlimit_threading = min(memlimit, 1 << 26); m.memlimit_stop = memlimit; m.timeout = 0     # finite threading limit: Blocks that claim huge sizes are decoded in direct mode instead of being allocated for
         r = c.init("lzma_stream_decoder_mt", C.byref(m))
     else:
         r = c.init("lzma_stream_decoder", memlimit, flags)
@@ -490,6 +516,48 @@ def block_decode(header, rest, check, slices=None, out_cap=1 << 16, ignore_check
     c.end()
     L.lzma_filters_free(C.cast(flt, C.POINTER(lz.Filter)), None)
     return res
+
+def index_decode(data, bytewise=False):
+    """the Index field alone: lzma_index_buffer_decode, or lzma_index_decoder fed byte by byte.  Returns the return code name
+    (OK and STREAM_END both mean accepted -> "OK")."""
+    L = lz.L()
+    ib = lz.Buf(len(data), data)
+    if not bytewise:
+        idx = C.c_void_p(None); ml = C.c_uint64(lz.UINT64_MAX); ip = C.c_size_t(0)
+        r = L.lzma_index_buffer_decode(C.byref(idx), C.byref(ml), None, ib.addr, C.byref(ip), len(data))
+        if idx.value:
+            L.lzma_index_end(idx, None)
+        return lz.retname(r), ip.value
+    c = lz.Coder()
+    idx = C.c_void_p(None)
+    r = c.init("lzma_index_decoder", C.byref(idx), lz.UINT64_MAX)
+    if r != lz.OK:
+        c.end(); return "INIT_" + lz.retname(r), 0
+    ret, _, _, tin = drive(c, data, slices=[1] * len(data), out_cap=16)
+    c.end()
+    if idx.value:
+        L.lzma_index_end(idx, None)
+    return ("OK" if ret == "STREAM_END" else ret), tin
+
+def vli_decode_calls(data, pieces):
+    """lzma_vli_decode over `data`: pieces=None -> single-call mode (vli_pos = NULL) on the whole buffer; otherwise multi-call
+    mode fed in the given piece sizes.  Returns (retname of the last call, bytes consumed, value)."""
+    L = lz.L()
+    ib = lz.Buf(max(1, len(data)), data)
+    v = C.c_uint64(0); ip = C.c_size_t(0)
+    if pieces is None:
+        r = L.lzma_vli_decode(C.byref(v), None, ib.addr, C.byref(ip), len(data))
+        return lz.retname(r), ip.value, v.value
+    vp = C.c_size_t(0)
+    end = 0; r = lz.OK
+    for k in pieces:
+        end = min(len(data), end + k)
+        if ip.value >= end:
+            continue
+        r = L.lzma_vli_decode(C.byref(v), C.byref(vp), ib.addr, C.byref(ip), end)
+        if r != lz.OK:
+            break
+    return lz.retname(r), ip.value, v.value
 
 def lzma1_opts(dict_size=4096, lc=3, lp=0, pb=2):
     return lz.lzma_opts(dict_size=dict_size, lc=lc, lp=lp, pb=pb)
